@@ -1,6 +1,6 @@
 from __future__ import annotations
 
-from typing import TYPE_CHECKING, Literal
+from typing import TYPE_CHECKING
 
 import mypy.types as mp_types
 from mypy import nodes as mp_nodes
@@ -73,7 +73,7 @@ def find_return_stmts_recursive(stmts: list[mp_nodes.Statement] | list[mp_nodes.
     return return_stmts
 
 
-def mypy_variance_parser(mypy_variance_type: Literal[0, 1, 2]) -> VarianceKind:
+def mypy_variance_parser(mypy_variance_type: int) -> VarianceKind:
     match mypy_variance_type:
         case 0:
             return VarianceKind.INVARIANT
